@@ -61,6 +61,7 @@ class P(Prop):
                     elif d["cls"] == "ptipto":
                         ci["full"] = [rng.random() < 0.3 for _ in range(n)]
                 case["inp2"] = inp2
+                case["in_place2"] = rng.random() < 0.4     # the caller edits the status arrays the engines hold instead of handing over new ones
             out.append(case)
         return out
 
@@ -72,7 +73,10 @@ class P(Prop):
         if case.get("inp2"):
             for d, o, ci in zip(plant["mech"], objs, case["inp2"]["comps"]):
                 if d["cls"] in ENG:
-                    sysm.set_status_main_engine_for_name_shaft_line_id(d["name"], d["line"], np.array(ci["status"], dtype=bool))
+                    if case.get("in_place2") and isinstance(o.status, np.ndarray) and o.status.shape == (len(ci["status"]),):
+                        o.status[...] = np.array(ci["status"], dtype=bool)
+                    else:
+                        sysm.set_status_main_engine_for_name_shaft_line_id(d["name"], d["line"], np.array(ci["status"], dtype=bool))
                 elif d["cls"] == "ptipto":
                     sysm.set_full_pti_mode_for_name_shaft_line_id(d["name"], d["line"], np.array(ci["full"], dtype=bool))
             res["second"] = self.balance_and_observe(plant, sysm, objs)
@@ -190,6 +194,8 @@ class P(Prop):
             t.append("cls:" + d["cls"])
         if case.get("inp2"):
             t.append("second-balance-after-mode-change-only")
+            if case.get("in_place2"):
+                t.append("statuses-edited-in-place")
         if inp.get("int_loads"):
             t.append("loads-as-integer-arrays")
         return sorted(set(t))
